@@ -102,7 +102,7 @@ func init() {
 		Assumptions: []string{"broker grants the requested QoS", "the fold uses accepted calls in call order"},
 		Gen: func(tier string, seed int64) []fw.Case {
 			return genRetry(retrySpec{
-				Workloads:   []string{"subs1", "subs2", "subs3", "subs4", "subs5", "subs6", "subs7", "mixed", "outage2"},
+				Workloads:   []string{"subs1", "subs2", "subs3", "subs4", "subs5", "subs6", "subs7", "mixed", "outage2", "presub"},
 				Configs:     withClients(cfgs([]string{"A"}, []string{"keep", "lose"}, []bool{false, true}), 4, "retry", "retry-retryfirst", "retry-chaotic"),
 				Singles:     true,
 				PairsSample: scale(tier, 40, 1500),
